@@ -475,6 +475,110 @@ def run(ctx):
                                      "ftp://fetch.invalid/p/main.wsdl"]:
                             out.append("%s not fetched: %r" % (MARK, asked))
                         return " ".join(out)
+                    def ep_include_chain(schema=schema):
+                        # documents are fetched from the locations the documents name: a relative location inside an
+                        # included document of another folder is relative to that document
+                        import io
+                        XSD_ = "http://www.w3.org/2001/XMLSchema"
+                        main = wsdlkit.wsdl_doc('<xsd:include schemaLocation="sub/deep/a.xsd"/>' + schema, "f", "fResponse")
+                        docs_ = {"http://fetch.invalid/main.wsdl": main,
+                                 "http://fetch.invalid/sub/deep/a.xsd": (
+                                     '<xsd:schema xmlns:xsd="%s" targetNamespace="%s"><xsd:include schemaLocation="b.xsd"/>'
+                                     '<xsd:include schemaLocation="../c.xsd"/></xsd:schema>' % (XSD_, wsdlkit.TNS)).encode(),
+                                 "http://fetch.invalid/sub/deep/b.xsd": (
+                                     '<xsd:schema xmlns:xsd="%s" targetNamespace="%s"><xsd:element name="eb" type="xsd:string"/>'
+                                     '</xsd:schema>' % (XSD_, wsdlkit.TNS)).encode(),
+                                 "http://fetch.invalid/sub/c.xsd": (
+                                     '<xsd:schema xmlns:xsd="%s" targetNamespace="%s"><xsd:import namespace="urn:far" '
+                                     'schemaLocation="far/d.xsd"/></xsd:schema>' % (XSD_, wsdlkit.TNS)).encode(),
+                                 "http://fetch.invalid/sub/far/d.xsd": (
+                                     '<xsd:schema xmlns:xsd="%s" targetNamespace="urn:far"><xsd:element name="ed" type="xsd:string"/>'
+                                     '</xsd:schema>' % XSD_).encode()}
+                        asked = []
+
+                        class TC(suds.transport.Transport):
+                            def open(self, request):
+                                asked.append(str(request.url))
+                                if str(request.url) not in docs_:
+                                    raise suds.transport.TransportError("no such document", 404)
+                                return io.BytesIO(docs_[str(request.url)])
+
+                            def send(self, request):
+                                raise AssertionError("no send")
+                        try:
+                            out = str(suds.client.Client("http://fetch.invalid/main.wsdl", transport=TC(), cache=None))
+                        except Exception as e:
+                            out = "%s: %s" % (type(e).__name__, e)
+                        if sorted(asked) != sorted(docs_):
+                            out += " %s fetched: %r" % (MARK, sorted(set(asked) - set(docs_)) or asked)
+                        return out
+
+                    def ep_default_store(schema=schema):
+                        # a client given its own document store and transport takes documents from these two: what some
+                        # other code registered with the library-wide default store is not its business
+                        import io
+                        extra_real = ('<xsd:schema xmlns:xsd="http://www.w3.org/2001/XMLSchema" targetNamespace="urn:extra">'
+                                      '<xsd:element name="real" type="xsd:string"/></xsd:schema>').encode()
+                        extra_other = extra_real.replace(b'name="real"', b'name="%s"' % MARK.encode())
+                        key = "fetch.invalid/registered-elsewhere/extra.xsd"
+                        suds.store.defaultDocumentStore.update({key: extra_other})
+                        main = wsdlkit.wsdl_doc('<xsd:import namespace="urn:extra" schemaLocation="http://%s"/>' % key + schema,
+                                                "f", "fResponse")
+                        asked = []
+
+                        class TD(suds.transport.Transport):
+                            def open(self, request):
+                                asked.append(str(request.url))
+                                return io.BytesIO(main if str(request.url).endswith("main.wsdl") else extra_real)
+
+                            def send(self, request):
+                                raise AssertionError("no send")
+                        try:
+                            cl = suds.client.Client("http://fetch.invalid/main.wsdl", transport=TD(), cache=None,
+                                                    documentStore=suds.store.DocumentStore())
+                            out = str(cl) + str(cl.wsdl.schema)
+                        except Exception as e:
+                            out = "%s: %s" % (type(e).__name__, e)
+                        finally:
+                            suds.store.defaultDocumentStore._DocumentStore__store.pop(key, None)
+                        if asked != ["http://fetch.invalid/main.wsdl", "http://" + key]:
+                            out += " %s not fetched through the client's transport: %r" % (MARK, asked)
+                        return out
+
+                    def ep_environment_proxy(schema=schema):
+                        # the stock transport connects to the host the caller named - a proxy named only by the process
+                        # environment is nobody's configuration (real sockets: observed at the two servers)
+                        was = RECORD[0]
+                        RECORD[0] = False          # (the harness's own imports and servers)
+                        from harness.props import c15
+                        import suds.transport.http
+                        origin, proxy = c15.Server(), c15.Server()
+                        saved = {k_: os.environ.get(k_) for k_ in ("http_proxy", "HTTP_PROXY", "no_proxy", "NO_PROXY", "all_proxy", "ALL_PROXY")}
+                        try:
+                            for k_ in saved:
+                                os.environ.pop(k_, None)
+                            os.environ["http_proxy"] = os.environ["HTTP_PROXY"] = "http://127.0.0.1:%d" % proxy.port
+                            body_ = wsdlkit.wsdl_doc(schema, "f", "fResponse", location=origin.url("/svc"))
+                            origin.httpd.plan = lambda h: {"status": 200, "body": body_}
+                            proxy.httpd.plan = lambda h: {"status": 200, "body": body_.replace(b'name="f"', b'name="%s"' % MARK.encode())}
+                            try:
+                                out = str(suds.client.Client(origin.url("/main.wsdl"), cache=None,
+                                                             transport=suds.transport.http.HttpTransport()))
+                            except Exception as e:
+                                out = "%s: %s" % (type(e).__name__, e)
+                            if proxy.httpd.seen or len(origin.httpd.seen) != 1:
+                                out += " %s connected elsewhere: proxy saw %d request(s), the named host %d" % (
+                                    MARK, len(proxy.httpd.seen), len(origin.httpd.seen))
+                            return out
+                        finally:
+                            for k_, v_ in saved.items():
+                                if v_ is None:
+                                    os.environ.pop(k_, None)
+                                else:
+                                    os.environ[k_] = v_
+                            origin.close()
+                            proxy.close()
+                            RECORD[0] = was
                     extra = [("transport-fetch", ep_transport_fetch), ("str-reply", ep_str_reply),
                              ("store-served", ep_store_served), ("huge-reply", ep_huge_reply)] if rep == 0 and \
                         name in ("none", "internal-only") else []
@@ -486,6 +590,10 @@ def run(ctx):
                         extra.append(("odd-locations", ep_odd_locations))
                         extra.append(("cache-folder-only", ep_cache_folder_only))
                         extra.append(("cache-protocols", ep_cache_protocols))
+                        extra.append(("include-chain", ep_include_chain))
+                        extra.append(("default-store", ep_default_store))
+                        if name == "none":
+                            extra.append(("environment-proxy", ep_environment_proxy))
                     entry_points = extra + [("error-path", ep_error_path), ("import-url", ep_import_url),
                                     ("inject", ep_inject), ("transport", ep_transport), ("reqctx", ep_reqctx),
                                     ("parser", ep_parser), ("wsdl", ep_wsdl), ("import", ep_import), ("cache", ep_cache)]
